@@ -74,6 +74,9 @@ def summarize(results):
     return c
 
 
+STEP_INPUT = {}     # case id -> text of the program that entered the culprit rule step (filled by attribute)
+
+
 def attribute(wd, label, differing, rules_of, env_for=None):
     """For each differing case (dict with id, src, generator, enva/envb), find the first rule of its pipeline after
     which the program is no longer equivalent to the original. Returns {id: culprit rule name or 'generator'}."""
@@ -105,6 +108,9 @@ def attribute(wd, label, differing, rules_of, env_for=None):
             v = res.get("%s|%d" % (c["id"], k))
             if v is not None and v["verdict"] in ("differ", "notrun"):
                 found = rules[k - 1]
+                # the program the culprit rule received = output of the previous prefix (retain_lines text)
+                prev = res.get("%s|%d" % (c["id"], k - 1)) if k > 1 else None
+                STEP_INPUT[c["id"]] = prev["out"] if prev is not None and prev.get("out") else c["src"]
                 break
         culprit[c["id"]] = found if found is not None else "generator"
     return culprit, st, gen
@@ -230,9 +236,11 @@ def run_property(pid, tier, group, cfgs, luau, env_for=None, nrand=(200, 3000), 
         v = res[c["id"]]
         rules = rules_of[c["id"]]
         cul = culprit.get(c["id"], rules[0] if len(rules) == 1 else "generator")
-        if c["src"] not in trig_cache:
-            trig_cache[c["src"]] = parse_nodes(c["src"])
-        prog = trig_cache[c["src"]]
+        # triggers of known findings are evaluated on the input of the culprit STEP, not of the whole pipeline
+        step_src = STEP_INPUT.get(c["id"], c["src"])
+        if step_src not in trig_cache:
+            trig_cache[step_src] = parse_nodes(step_src)
+        prog = trig_cache[step_src]
         sig = {"kind": "behaviour" if v["verdict"] == "differ" else "failure", "culprit": cul.split(",")[0].replace("{ rule: ", "").strip("'\" {}") if cul.startswith("{") else cul,
                "trigger_andor_multi": trigger_andor_multi(prog), "trigger_repeat_continue_local": trigger_repeat_continue_local(prog),
                "generator": c["generator"], "cfg": c["cfg"], "what": (v.get("detail") or {}).get("what", v.get("status", ""))[:120],
